@@ -484,7 +484,7 @@ def elementwise(prog, f, result_expr=None):
         init = f.init_expr(a0[1])
         if not call_is(init, r"into_iter$|::iter$"):
             continue
-        some = targets(lib.switch_edges_on_site(f, nx, {"Some"}))
+        some = targets(variant_edges(f, is_call_at(nx), {"Some"}))
         if len(some) != 1:
             continue
         region = f.reachable(some, stop_nodes=[nx.bb])
@@ -496,7 +496,7 @@ def elementwise(prog, f, result_expr=None):
         if not keeps:
             continue
         src = init[2][0] if init[2] else init
-        elem = ("downcast_payload", nx)
+        elem = ("field", ("downcast", f.site_expr(nx), "Some"), "0", None)
         return Elementwise("loop", f, some[0], [nx.bb], keeps, elem, src, nx)
     return None
 
@@ -518,3 +518,23 @@ def capture_exprs(prog, child):
             if st["k"] == "assign" and st["r"]["k"] == "agg" and st["r"].get("ak") in ("closure", "coroutine", "coroutine_closure") and st["r"].get("def") == child.path:
                 return parent, [parent.operand_expr(o) for o in st["r"]["ops"]]
     return parent, []
+
+
+def resolve(prog, body, e, depth=0):
+    """Follow a captured variable up to the enclosing body that defines it: (body', expr')."""
+    if e[0] != "upvar" or depth > 4:
+        return body, e
+    r = Norm(body).r(e)
+    if not r[1:].isdigit():
+        return body, e
+    parent, caps = capture_exprs(prog, body)
+    i = int(r[1:])
+    if parent is None or i >= len(caps):
+        return body, e
+    return resolve(prog, parent, caps[i], depth + 1)
+
+
+def rr(prog, body, e):
+    """Normalised rendering of e after resolving a top-level captured variable to its defining body."""
+    b2, e2 = resolve(prog, body, e)
+    return Norm(b2).r(e2)
